@@ -76,7 +76,7 @@ def run(tier):
             yield ['sweep32 %d %d %d | 0 -1' % (lo + (i % step), lo + span // nshard, step)]
         yield ['rnd64 %d %d | 0' % (vf.seed() + k, 20000 if quick else 600000) for k in range(16)]
 
-    res = vf.run_scripts('varint', scripts(), 'C14', name='vi')
+    res = vf.run_scripts('varint', scripts(), 'C14', name='vi', flavours=6)
     v.exec_problems(res, 'varint')
     v.cov['traces_validated_against_impl'] += res.nscripts
     v.cov['evaluations'] += nstrings[0] + len(enc_cases) + (1 << 32) // (1 if not quick else 4099) + 16 * 2 * (20000 if quick else 600000)
@@ -109,7 +109,7 @@ def run(tier):
                     sc.append('enc %d %d %s' % (ty, rnd.randint(0, 1), ' '.join(map(str, gs))))
             yield sc
 
-    vf.trace_flow(v, 'VarintTrace.tla', 'VarintTrace.cfg', 'varint', e2(), 'vitrace')
+    vf.trace_flow(v, 'VarintTrace.tla', 'VarintTrace.cfg', 'varint', e2(), 'vitrace', flavours=6)
     v.cov['samples'][0]['events'] = ['dec 64 3 255 128 1 | 3 3 127 0 1 0 0 0 0 0 0 0 3 3 127 0 1 0 0 0 0 0 0 0']
     v.cov['rule'] = ('E1: every octet string of length <= L over the octet classes plus continuation-only tails up to 12 octets, for both widths, '
                      'each in an exact-size heap block (so each proper prefix of an encoding is a cut-off at the block end); prescribed result from the '
